@@ -312,6 +312,13 @@ pub fn builder_exec(seq: &SeqCase, lines: bool, dl: Dl, sched: Sched) -> Result<
     let alg = seq.alg.to();
     let ops = guarded(|| {
         let mut cfg = TextDiff::configure();
+        if seq.hasher.1 % 3 == 0 {
+            // decoy first: the algorithm set last must be the one that runs
+            cfg.algorithm(match alg {
+                similar::Algorithm::Myers => similar::Algorithm::Lcs,
+                _ => similar::Algorithm::Myers,
+            });
+        }
         cfg.algorithm(alg);
         match dl {
             Dl::None => {}
